@@ -5,7 +5,7 @@ EXTENDS GlmVector, TraceBase
 VARIABLE l
 vars == <<l>>
 Verdict(ev) ==
-    CASE ev.op = "lift" -> VBool(Len(ev.r) = ev.n /\ LiftOK(ev.f, ev.t, ev.q, ev.a, ev.r, ev.s))
+    CASE ev.op = "lift" -> VBool(Len(ev.r) = ev.n /\ LiftOKCfg(ev.f, ev.t, ev.q, IF Has(ev, "cfg") THEN ev.cfg ELSE "pure", ev.a, ev.r, ev.s))
       [] ev.op = "fold" -> VBool(SameBitsOrBothNaN(ev.t, ev.r[1], ev.s[1]) \/ (ev.f \in {"compMin", "compMax"} /\ BothZero(ev.t, ev.r[1], ev.s[1])))
       [] OTHER -> VBad
 Init == l = 1 /\ RegInit
